@@ -335,7 +335,9 @@ class Mix(Scenario):
 
             steps.append(Step('request', go_unsub))
         else:
-            sub = RecSubscriber(w, side, 'sub' + it.tag, cancel_on_subscribe=(it.cancel_after == -1))
+            # credit 'onsub': initial request-n 1, the rest granted by subscription.request(n) from inside on_subscribe
+            sub = RecSubscriber(w, side, 'sub' + it.tag, cancel_on_subscribe=(it.cancel_after == -1),
+                                request_on_subscribe=(7 if it.credit == 'onsub' else None))
             st['sub'] = sub
             n0 = MAXN if it.credit == 'max' else 1
             if it.credit == 'one':
